@@ -20,9 +20,17 @@ def T_of(result):
     return unscalar(arrv(tc(result).time))
 
 
-def prev_state(ode, y0v, t, step):
-    # the state one step before time t (the initial state for the first step)
-    return y0v if t <= step else sol(ode, t - step)
+def prev_state(ode, y0v):
+    # the state the previous integrate() call reached (the initial state before the first call)
+    return y0v if ode.ncalls <= 1 else sol(ode, ode.t_prev)
+
+
+def test_value(ode, y0v, T, rel_norm):
+    return vnorm(
+        vdiv(vsub(sol(ode, T), prev_state(ode, y0v)), prev_state(ode, y0v))
+        if rel_norm
+        else vsub(sol(ode, T), prev_state(ode, y0v))
+    )
 
 
 @contract("mxlpy.integrators.int_scipy:Scipy.integrate_to_steady_state")
@@ -32,21 +40,16 @@ class integrate_to_steady_state:
     requires = lambda self, tolerance, rel_norm, step_size, max_steps: step_size > 0 and max_steps >= 0
     ensures = lambda self, tolerance, rel_norm, step_size, max_steps, result, ode: [
         has_type(result, "Result"),
-        # success: T is the reported time; the reported state is the solver's state at T and the
-        # convergence test compared it with the state one step EARLIER (as values)
+        # success: T is the reported time; the solver completed the step to T; the reported
+        # state is the solver's state at T; the convergence test compared it, in the chosen
+        # norm, with the state the PREVIOUS call reached at least step_size earlier (as values)
         implies(
             has_type(result.value, "TimeCourse"),
             T_of(result) >= step_size
+            and ode.t == T_of(result)
             and arrv(tc(result).values) == stack1(sol(ode, T_of(result)))
-            and vnorm(
-                vdiv(
-                    vsub(sol(ode, T_of(result)), prev_state(ode, arrv(old(self._y0_orig)), T_of(result), step_size)),
-                    prev_state(ode, arrv(old(self._y0_orig)), T_of(result), step_size),
-                )
-                if rel_norm
-                else vsub(sol(ode, T_of(result)), prev_state(ode, arrv(old(self._y0_orig)), T_of(result), step_size))
-            )
-            < tolerance,
+            and (ode.ncalls <= 1 or ode.t_prev <= T_of(result) - step_size)
+            and test_value(ode, arrv(old(self._y0_orig)), T_of(result), rel_norm) < tolerance,
         ),
         implies(not has_type(result.value, "TimeCourse"), has_type(result.value, "NoSteadyState")),
     ]
@@ -54,7 +57,9 @@ class integrate_to_steady_state:
     loops = {
         1: lambda self, t, y1, step_size, ode: [
             t == step_size * (_i + 1),
-            arrv(y1) == prev_state(ode, arrv(old(self._y0_orig)), step_size * (_i + 1), step_size),
+            ode.ncalls == _i,
+            ode.t <= step_size * _i,
+            arrv(y1) == (arrv(old(self._y0_orig)) if _i == 0 else sol(ode, ode.t)),
             has_type(y1, "ndarray"),
             # y1 holds the previous state AS A VALUE: it is not the solver's own buffer,
             # which the next integrate() call overwrites
